@@ -8,6 +8,7 @@
 //!       re-execute one replay file (a transition record or a history) and print what the code does
 
 mod drive;
+mod errors;
 mod model;
 mod render;
 mod replay;
